@@ -1382,8 +1382,17 @@ func checkC11e2e(in *exInput) []exFinding {
 	}
 	g := in.graph()
 	o := in.opts()
-	c := g.call("expand_spec", o)
-	c.Spelling = in.Spelling
+	// ExpandSpec, or one of the single-element entry points that take the root location as a string
+	mk := func(spelling string) *exCall {
+		op := in.Op
+		if op == "" {
+			op = "expand_spec"
+		}
+		c := g.call(op, o)
+		c.Element, c.Entry, c.Spelling = in.Element, in.Entry, spelling
+		return c
+	}
+	c := mk(in.Spelling)
 	// in a worker process: a spelling that defeats cycle detection ends in a stack overflow, which no recover() catches
 	res := exWorkerRun(c)
 	var fs []exFinding
@@ -1392,7 +1401,7 @@ func checkC11e2e(in *exInput) []exFinding {
 		if atomic.AddInt32(&exRespellCrashes, 1) > 3 {
 			return []exFinding{{Shape: "stat:respelled-crash-not-examined"}} // each costs a time-out or a gigabyte of stack: three witnesses are enough
 		}
-		ref := exRun(g.call("expand_spec", o))
+		ref := exRun(mk(""))
 		if ref.Timeout || ref.Panic != "" {
 			return nil // the canonical spelling does not come back either: not a matter of spelling (C04)
 		}
@@ -1412,11 +1421,19 @@ func checkC11e2e(in *exInput) []exFinding {
 	// is not a difference made by the spelling
 	var first *exFinding
 	for k := 0; k < 5; k++ {
-		ref := exExpand(g, o)
+		ref := exRun(mk(""))
 		if ref.Timeout || ref.Panic != "" {
 			return exFirstPerShape(fs)
 		}
 		d := exRespellingDiff(g, ref, res)
+		if kind := exOpKind[in.Op]; in.Op != "" && in.Op != "expand_spec" && d != nil && kind != "" && !ref.Err && !res.Err && !g.Acyclic {
+			// a single element: what it denotes at the root location
+			st := g.store()
+			if exJSON(st.unfold(g.Root, exDecode(ref.Out), kind, exDepth)) == exJSON(st.unfold(g.Root, exDecode(res.Out), kind, exDepth)) &&
+				exJSON(exSet(ref.Loads, g.Root)) == exJSON(exSet(res.Loads, g.Root)) {
+				d = nil
+			}
+		}
 		if d == nil {
 			if k > 0 {
 				fs = append(fs, exFinding{Shape: "stat:canonical-spelling-unstable"})
@@ -1467,6 +1484,21 @@ func exSpellingVariants(r *rng, g *exGraph) []*exInput {
 		in.Spelling = sp
 		in.Opts = &exOpts{Abs: r.chance(1, 2), Skip: r.chance(1, 5)}
 		out = append(out, in)
+		// the entry points that take the root location as a string: ExpandSchemaWithBasePath, ExpandParameter, ExpandResponse
+		var els []exElementCase
+		for _, ec := range exElementCases(g) {
+			if ec.Form == "ref" {
+				els = append(els, ec)
+			}
+		}
+		if len(els) > 0 && r.chance(1, 2) {
+			ec := els[r.intn(len(els))]
+			in2 := exInputOf(g)
+			in2.Spelling = sp
+			in2.Op, in2.Element, in2.Entry, in2.Pointer = ec.Op, ec.Element, "base_path", ec.Pointer
+			in2.Opts = &exOpts{Abs: r.chance(1, 2)}
+			out = append(out, in2)
+		}
 	}
 	return out
 }
